@@ -270,7 +270,7 @@ fn minimise(dir: &Path, sch: &Sch, an: &Analyzers, hist: &Hist, rq: &Req, sigs: 
 fn main() {
   let args: Vec<String> = std::env::args().skip(1).collect();
   let mut ctx = Ctx::from_args("C07", "exploration", &args);
-  ctx.rule = "per case: random schema (1-4 text fields over default/whitespace/unicode tokenizers with lowercase/stopwords/stemmer/synonyms filters and sometimes a different search analyzer; 0-3 keyword fields; one i64 fast field), 5-40 documents over a tiny vocabulary written in 1-5 commits with upserts/deletes and sometimes compaction, then 40-60 requests: random query trees to depth 4 over all node kinds (incl. prefix/wildcard/regex below every expansion cap and request-level fuzzy on negation-free trees) plus `term(field, word)` for every source word of live documents. The id set of search(execution=bm25, limit=10000) is compared with an independent three-valued evaluator (definitely/possibly matches): engine must contain every definite match and nothing outside the possible matches. evaluations = request comparisons; a request is non-trivial (counted once by hash of schema+history+request) when the definite set is non-empty and the possible set is not all live documents.".into();
+  ctx.rule = "per case: random schema (1-4 text fields over default/whitespace/unicode tokenizers with lowercase/stopwords/stemmer/synonyms filters and sometimes a different search analyzer; 0-3 keyword fields; one i64 fast field), 5-40 documents over a tiny vocabulary written in 1-5 commits with upserts/deletes and sometimes compaction, then 40-60 requests: random query trees to depth 4 over all node kinds (incl. prefix/wildcard/regex below every expansion cap and request-level fuzzy on negation-free trees) plus `term(field, word)` for every source word of live documents. The id set of search(execution=bm25, limit=10000) is compared with an independent three-valued evaluator (definitely/possibly matches): engine must contain every definite match and nothing outside the possible matches; the same request under execution=wand and execution=bmw must return the same id set. evaluations = request comparisons; a request is non-trivial (counted once by hash of schema+history+request) when the definite set is non-empty and the possible set is not all live documents.".into();
   ctx.assumptions = vec![
     "tokenisation uses the engine's public analyzers (Schema::build_analyzers); everything else is independent".into(),
     "README is silent on: position gap between values of a multi-valued text field (judged only when 'contiguous' and 'never across values' agree), case rules of term queries on keyword fields (judged only when exact-case and case-insensitive agree), multi-token term values (judged only when all-tokens and any-token agree), terms that analyze to nothing inside query_string/multi_match (judged only when counting them and dropping them agree), rounding of percentage minimum_should_match (judged only when floor and ceil agree), transpositions in fuzzy distance (judged only when Levenshtein and OSA agree). Documents that are undecided are excluded from the comparison and counted in `undecided_doc_verdicts`".into(),
@@ -368,6 +368,26 @@ fn main() {
         }
       };
       l.eval();
+      // The statement is about the documents returned with a limit covering all matches, whatever the
+      // execution strategy: with such a limit the pruning executors have nothing to prune, so wand and bmw
+      // must return the same id set as the exhaustive run that the oracle judges.
+      for ex in ["wand", "bmw"] {
+        let mut body = rq.to_json();
+        body["execution"] = json!(ex);
+        if let Ok(Ok(res)) = vcore::ctx::catch(|| idx::search(&reader, body.clone())) {
+          l.eval();
+          let set: BTreeSet<String> = idx::ids(&res).into_iter().collect();
+          if set != engine {
+            let missing: Vec<&String> = engine.difference(&set).collect();
+            let extra: Vec<&String> = set.difference(&engine).collect();
+            l.fail(
+              format!("id-set-depends-on-execution:{ex}:{}", if !missing.is_empty() { "documents-missing" } else { "documents-added" }),
+              format!("with a limit covering all matches, execution={ex} returns a different id set than execution=bm25: missing {missing:?}, extra {extra:?}"),
+              json!({"schema": sch.json, "request": body, "history": corpus.hist.to_json(), "bm25_ids": engine, "ids": set}),
+            );
+          }
+        }
+      }
       let mut o = compare(&env, rq, &views, &engine);
       o.dup = dup;
       l.count(&format!("requests[{family}]"), 1);
